@@ -30,7 +30,7 @@ def storedOf : Node → List Pos
   | .assign _ lhs rhs p => p :: (storedOfL lhs ++ storedOfL rhs)
   | .call _ args np lp rp _ => np :: lp :: rp :: storedOfL args
   | .slice o a b c _ lb rb => lb :: rb :: (storedOf o ++ (storedOfO a ++ (storedOfO b ++ storedOfO c)))
-  | .ifelse ifs els ep => ep :: (storedOfIfs ifs ++ storedOfOB els)
+  | .ifelse ifs els _ => storedOfIfs ifs ++ storedOfOB els
   | .forS i c l b p => p :: (storedOfO i ++ (storedOfO c ++ (storedOfO l ++ storedOfOB b)))
   | .forIn v it b fp ip => fp :: ip :: (storedOf v ++ (storedOf it ++ storedOfOB b))
 def storedOfL : List Node → List Pos
@@ -192,9 +192,8 @@ theorem posOf_stored : ∀ (n : Node) (p : Pos), p ∈ posOf n → StoredOrInval
     · exact soi_mono (posOfO_stored c p h) (by intro q hq; simp [storedOf, hq])
   | .ifelse ifs els ep, p, h => by
     simp only [posOf, List.mem_cons, List.mem_append] at h
-    rcases h with h | h | h | h
+    rcases h with h | h | h
     · exact h ▸ start_stored _
-    · exact Or.inl (by simp [storedOf, h])
     · exact soi_mono (posOfIfs_stored ifs p h) (by intro q hq; simp [storedOf, hq])
     · exact soi_mono (posOfOB_stored els p h) (by intro q hq; simp [storedOf, hq])
   | .forS i c l b q, p, h => by
